@@ -180,6 +180,19 @@ def run(prog: Program, res: Result) -> None:  # noqa: PLR0912, PLR0915
         res.ok("C08.R3", f"{cp.file}:{cp.node.lineno} RenderContext.copy", what, "same dict object")
     else:
         res.fail("C08.R3", file=ctx.file, line=cp.node.lineno if cp else 0, qualname="RenderContext.copy", construct="extends stacks not shared", message="block-scoped copies do not see the block stacks: nested blocks fall back to their base definition", what=what)
+    # ... and only block-scoped copies do: a `render`ed template (isolated copy) starts with its own empty stacks
+    if cp is not None:
+        ccfg = CFG(cp.node)
+        shares = [n for n in ccfg.nodes if n.kind == "stmt" and isinstance(n.node, ast.Assign) and any(isinstance(t, ast.Subscript) and norm(t) == "ctx.tag_namespace['extends']" for t in n.node.targets)]
+        # any other way of handing the parent's stacks to the copy (whole tag_namespace shared)
+        whole = [n for n in ccfg.nodes if n.kind == "stmt" and isinstance(n.node, ast.Assign) and any(isinstance(t, ast.Attribute) and t.attr == "tag_namespace" for t in n.node.targets)]
+        for n in shares + whole:
+            what = f"`{norm(n.node, 70)}` happens only for block-scoped copies"
+            g = guarded_by_test(ccfg, n, lambda t: False if norm(t) == "block_scope" else None)
+            if g is not None and n in shares:
+                res.ok("C08.R3", f"{cp.file}:{n.line} RenderContext.copy", what, "on the true edge of `if block_scope`")
+            else:
+                res.fail("C08.R3", file=cp.file, line=n.line, qualname="RenderContext.copy", construct=f"{norm(n.node, 70)} outside `if block_scope`", message=f"`{norm(n.node, 70)}` also runs for isolated copies (render tag, macros): a template rendered from inside an inheritance chain sees - and its own extends clears - the caller's block stacks, so blocks resolve to the wrong override", what=what)
     # StopRender is raised only by ExtendsNode
     for m_ in prog.modules.values():
         for n in ast.walk(m_.tree):
